@@ -812,7 +812,6 @@ func writtenOutHelpers(f *Func) []string {
 	return out
 }
 
-
 // mayCarryRepoSentinel: the error expression (err, or err.Error()) can hold an error produced inside this repository:
 // it is a parameter, a package-level value, or a local that some assignment defines from a call of a repository
 // function. A local only ever assigned from library calls carries none of the repository's sentinels.
@@ -1858,7 +1857,6 @@ func ruleEveryStatementSubmitted(c *Ctx, rule string) {
 		c.Undecided(rule, key, "no loop over the split statements that calls ExecQuery found in runTerminal")
 	}
 }
-
 
 // lruHitVars: the two results of the map lookup `entry, found := m[key]`.
 func lruHitVars(f *Func) (entry, found types.Object) {
